@@ -61,6 +61,10 @@ def gen_plan(seed: int, run: int, tier: str) -> dict:
     for v in rng.sample(sorted(workers), min(nf, nworkers - 1)):
         region = frng.choice(REGIONS)
         faults.append({"victim": v, "region": region, "nth": frng.choice([0, 1, 2, 3, 5, 8, 13, 21]) if region != "any" else frng.randrange(0, 250)})
+    # several workers die inside their objectives: one sweep then meets several stale trials
+    # and racing sweepers win some of them each
+    if nworkers >= 3 and rng.random() < 0.35:
+        faults = [{"victim": v, "region": "objective", "nth": frng.choice([0, 1, 2, 3, 5])} for v in rng.sample(sorted(workers), nworkers - 1)]
     # a stalled (but alive) worker: its heartbeat thread hangs for longer than the grace period
     # while its objective keeps running; its trial is legitimately failed by a sweeper - the
     # at-most-once clauses must still hold
